@@ -452,6 +452,32 @@ def c03(rep, tier):
     prep = [ev for ev in gv.calls() if m.is_factory(ev.e, 'PrepareExec')]
     exe = [ev for ev in gv.calls() if m.is_factory(ev.e, 'Exec')]
     argf = [ev for ev in gv.calls() if m.is_factory(ev.e, 'Arg')]
+    hf, gh, callev, bind = dv, gv, None, {}
+    if not prep and not exe and not argf:
+        # the call sequence may have been moved into a helper that dispatchValue calls once
+        for cev in gv.calls():
+            if not cev.e.get('callee_in_repo') or cev.e.get('obj') is not None:
+                continue
+            hs = [x for x in m.all_fns() if x['q'] == cev.e.get('callee')]
+            if len(hs) != 1 or hs[0] is dv:
+                continue
+            g2 = m.cfg(hs[0])
+            p2 = [ev for ev in g2.calls() if m.is_factory(ev.e, 'PrepareExec')]
+            if p2 and len([x for x in gv.calls() if x.e.get('callee') == cev.e.get('callee')]) == 1:
+                hf, gh, callev = hs[0], g2, cev
+                bind = {p['d']: a for p, a in zip(hf['params'], cev.e['args'])}
+                prep = p2
+                exe = [ev for ev in g2.calls() if m.is_factory(ev.e, 'Exec')]
+                argf = [ev for ev in g2.calls() if m.is_factory(ev.e, 'Arg')]
+                rep.analysed(hf)
+                break
+
+    def to_dv(root):
+        # a reference to a parameter of the helper stands for the argument passed by dispatchValue
+        r = strip_casts(root) if root is not None else None
+        if r is not None and r.get('k') == 'ref' and r.get('d') in bind:
+            return strip_casts(bind[r['d']])
+        return r
     if len(prep) != 1 or len(exe) != 1 or len(argf) != 1:
         F.unknown('dispatchValue', 'call sequence factories not unique: %d/%d/%d' % (len(prep), len(argf), len(exe)))
     else:
@@ -459,7 +485,7 @@ def c03(rep, tier):
         recs = {}
         for name, ev, idx in (('count', prep, 0), ('index', prep, 1), ('entry', exe, 0)):
             root, path = field_chain(ev.e['args'][idx])
-            recs[name] = (root, path)
+            recs[name] = (to_dv(root), path)
         wantf = {'count': 'stack_size', 'index': 'mi', 'entry': 'ind'}
         roots = set()
         for name, (root, path) in recs.items():
@@ -478,7 +504,7 @@ def c03(rep, tier):
             okrec = lk is not None and field_chain(lk[0])[1][-1:] == ['funcAddrs']
             keyvar = strip_casts(lk[1]) if okrec else None
             # guards: failed lookup returns, argnum mismatch returns
-            guards = gv.guards_of(prep)
+            guards = gv.guards_of(callev or prep)
             lookup_ok = argn_ok = False
             for cond, label, cn in guards:
                 c = strip_casts(cond)
@@ -493,15 +519,18 @@ def c03(rep, tier):
                     if fl and sz:
                         argn_ok = sz[0]['obj']
             F.check(okrec and lookup_ok, 'dispatchValue: record lookup', 'record = funcAddrs[name], dominated by the failed-lookup return on the same name',
-                    'callee record is %s; failed-lookup guard %s' % (show(o) if o else None, lookup_ok), W(m, dv, prep.e))
+                    'callee record is %s; failed-lookup guard %s' % (show(o) if o else None, lookup_ok), W(m, dv, (callev or prep).e))
             # Arg loop bound is the same vector compared with argnum
-            pv = Prov(m).of(dv, argf.e['args'][0])
+            pv = Prov(m).of(hf, argf.e['args'][0])
             same = False
             if argn_ok is not False and len(pv) == 1 and list(pv)[0][0] == 'ARGIDX':
-                same = strip_casts(argn_ok).get('d') == list(pv)[0][1]
+                vd = list(pv)[0][1]
+                if vd in bind:
+                    vd = (strip_casts(bind[vd]) or {}).get('d')
+                same = strip_casts(argn_ok).get('d') == vd
             F.check(argn_ok is not False and same, 'dispatchValue: argument count', 'one Arg per element of the vector whose size equals record.argnum (mismatch returns first)',
                     'Arg loop is not bounded by the vector compared with argnum', W(m, dv, argf.e))
-            F.check(gv.dominates(prep, argf) and gv.dominates(argf, exe) or (gv.dominates(prep, exe)), 'dispatchValue: order', 'PrepareExec before Arg before Exec',
+            F.check(gh.dominates(prep, argf) and gh.dominates(argf, exe) or (gh.dominates(prep, exe)), 'dispatchValue: order', 'PrepareExec before Arg before Exec',
                     'call sequence out of order', W(m, dv, exe.e))
         else:
             F.violation('dispatchValue: one record', 'PREPARE and EXEC operands come from different records', W(m, dv, prep.e))
@@ -1324,17 +1353,29 @@ def c07(rep, tier):
     n_end = sum(len(v) for v in found.values())
     # which constructs have their END kept?  a construct's function either builds the mark itself or calls a helper that does
     helpers_with_mark = set(q for q in found if q not in ('P', 'S'))
-    def calls_marked_helper(q):
+    uncond = {}
+    for hq in helpers_with_mark:
+        hf = [x for x in pf.functions_in('parse.cpp') if x['q'] == hq][0]
+        hg = pm.cfg(hf)
+        uncond[hq] = all(hg.on_all_paths(hg.ev(e)) for e in found[hq])
+
+    def helper_calls(q):
         fn_ = [x for x in pf.functions_in('parse.cpp') if x['q'] == q]
-        return bool(fn_) and any(e.get('k') == 'call' and e.get('callee') in helpers_with_mark for e in walk_all_exprs(fn_[0]['body']))
+        return [e for e in walk_all_exprs(fn_[0]['body']) if e.get('k') == 'call' and e.get('callee') in helpers_with_mark] if fn_ else []
+    via_helpers = 0
     for q, n in (('P', 2), ('S', 1)):
-        have = len(found.get(q, []))
+        own = len(found.get(q, []))
+        hc = helper_calls(q)
+        through = sum(len(found[e['callee']]) for e in hc if uncond.get(e['callee']))
+        via_helpers += through
+        have = own + through
         if have >= n:
-            E.ok('%s: END marks' % q, '%d MARK node(s) built from the END token with its own line' % have, 'Compiler/src/parse.cpp')
-        elif calls_marked_helper(q):
-            E.unknown('%s: END marks' % q, 'the END mark is built in a helper (%s); cannot attribute it to the constructs of %s' % (sorted(helpers_with_mark), q))
+            E.ok('%s: END marks' % q, '%d MARK node(s) built from the END token with its own line (%d of them in helpers that build it on every path)' % (have, through), 'Compiler/src/parse.cpp')
+        elif any(not uncond.get(e['callee']) for e in hc):
+            E.unknown('%s: END marks' % q, 'the END mark is built conditionally in a helper (%s); cannot attribute it to the constructs of %s' % (sorted(helpers_with_mark), q))
         else:
             E.violation('%s: END marks' % q, 'only %d of %d END marks are built in %s: the END line gets no site' % (have, n, q), 'Compiler/src/parse.cpp')
+    n_end = sum(len(found.get(q, [])) for q in ('P', 'S')) + via_helpers
     if n_end >= 3:
         E.ok('END marks total', '%d' % n_end, 'Compiler/src/parse.cpp')
     elif helpers_with_mark:
@@ -1570,13 +1611,15 @@ def c20_gen(rep, tier):
                 r = strip_casts(e['r'])
                 A4.check(r.get('k') == 'call' and (r.get('callee'), f['file']) in checked_fns, '%s: priority' % f['q'], 'checked conversion',
                          'priority converted by %s' % show(r), 'Compiler/src/macro.cpp:%d' % e['loc'][0])
-        if f['q'] == 'Theo::extract_macros':
+        # the index of an insertion token ($n): a local initialised from a string-to-int conversion of the token text
+        # (in extract_macros at the pinned commit, or in a helper it calls)
+        if f['q'] != 'get_replacement':
             for st in walk_stmts(f['body']):
                 if st['k'] == 'decl':
                     for v in st['vars']:
                         init = strip_casts(v.get('init'))
-                        if init is not None and init.get('k') == 'call' and 'strToInt' in (init.get('callee') or ''):
-                            A4.check((init.get('callee'), f['file']) in checked_fns, 'extract_macros: insertion index', 'checked conversion',
+                        if init is not None and init.get('k') == 'call' and 'strToInt' in (init.get('callee') or '') and 'substr' in show(init):
+                            A4.check((init.get('callee'), f['file']) in checked_fns, '%s: insertion index' % f['q'].split('::')[-1], 'checked conversion',
                                      'insertion index converted by %s' % init.get('callee'), 'Compiler/src/macro.cpp:%d' % v['loc'][0])
 
 
